@@ -161,6 +161,8 @@ type Req struct {
 	// BodyReader, when set, replaces Body as the source of the request body (slow upload); BodyLen is its length.
 	BodyReader io.Reader
 	BodyLen    int64
+	// Chunk > 0 delivers Body in pieces of at most that many bytes per Read.
+	Chunk int
 }
 
 // Do executes the request in the calling goroutine, recovering panics.
@@ -208,6 +210,9 @@ func (e *Env) Do(rq Req) *Call {
 	}
 	if rq.BodyReader != nil {
 		r.Body, r.ContentLength = io.NopCloser(rq.BodyReader), rq.BodyLen
+	} else if rq.Chunk > 0 && rq.Body != "" {
+		// the body arrives in pieces, as over a real connection: a single Read does not deliver all of it
+		r.Body = io.NopCloser(&chunked{r: strings.NewReader(rq.Body), n: rq.Chunk})
 	}
 	if rq.Ctx != nil {
 		r = r.WithContext(rq.Ctx)
@@ -232,6 +237,19 @@ func (e *Env) Do(rq Req) *Call {
 	c.D = reply.Decode(c.Rec)
 	c.Events = e.W.Events(tag)
 	return c
+}
+
+// chunked delivers at most n bytes per Read.
+type chunked struct {
+	r io.Reader
+	n int
+}
+
+func (c *chunked) Read(p []byte) (int, error) {
+	if len(p) > c.n {
+		p = p[:c.n]
+	}
+	return c.r.Read(p)
 }
 
 // ---- requests that are never answered ----
